@@ -342,6 +342,10 @@ int32_t jls_raw_rd_payload(struct jls_raw_s * self, uint32_t payload_length_max,
 
     uint32_t rd_size = payload_size_on_disk(hdr->payload_length);
 
+    if (rd_size < hdr->payload_length) {  // 32-bit overflow: no valid chunk is this long
+        JLS_LOGE("invalid payload length %" PRIu32, hdr->payload_length);
+        return JLS_ERROR_MESSAGE_INTEGRITY;
+    }
     if (rd_size > payload_length_max) {
         return JLS_ERROR_TOO_BIG;
     }
